@@ -33,7 +33,9 @@ PROBS = (DBN, "adf-problems")
 CLIENTS = ("A", "B")
 OWN = {"A": "u1", "B": "u2"}
 SHARED = "u3"
-PW = {"A": ("pwAone", "pwAtwo"), "B": ("pwBone", "pwBtwo")}
+# the two passwords of a client are long and share their first 100 bytes (a credential check that looks at a prefix only
+# would accept the other one); different clients share nothing
+PW = {"A": ("pwA" + "a" * 97 + "-one", "pwA" + "a" * 97 + "-two"), "B": ("pwB" + "\u00e9" * 50 + "-one", "pwB" + "\u00e9" * 50 + "-two")}
 MARK = {"A": "ownerA", "B": "ownerB"}
 CODE = {"A": "s(ownerA).ac(ownerA,c(v)).", "B": "s(ownerB).ac(ownerB,c(f))."}
 ALL_PW = [p for x in CLIENTS for p in PW[x]]
@@ -767,7 +769,8 @@ class E2:
 
 def e2_pairs(seed_name):
     pa, pb = PW["A"], PW["B"]
-    a_reqs = [("A", "update", SHARED, pa[1]), ("A", "update", OWN["A"], pa[0]), ("A", "delete-account"), ("A", "add", "y"), ("A", "delete", "x"), ("A", "solve", "x"), ("A", "list")]
+    a_reqs = [("A", "update", SHARED, pa[1]), ("A", "update", OWN["A"], pa[0]), ("A", "delete-account"), ("A", "add", "y"), ("A", "delete", "x"), ("A", "solve", "x"), ("A", "list"),
+              ("A", "register", SHARED, pa[0]), ("A", "register", "u4", pa[0])]
     b_seqs = [
         [("B", "register", SHARED, pb[0])],
         [("B", "update", SHARED, pb[1])],
@@ -779,6 +782,8 @@ def e2_pairs(seed_name):
         [("B", "solve", "x")],
         [("B", "update", SHARED, pb[1]), ("B", "list"), ("B", "add", "z")],
         [("B", "update", SHARED, pb[1]), ("B", "get", "x"), ("B", "delete", "x")],
+        [("B", "register", "u4", pb[0])],
+        [("B", "update", "u4", pb[1])],
     ]
     return [(a, b) for a in a_reqs for b in b_seqs]
 
